@@ -37,7 +37,7 @@ fn pick_world(rng: &mut Rng, ws: &[(&str, u32)]) -> String {
     ws[rng.weighted(&w)].0.to_string()
 }
 
-const MAP_WORLDS: &[(&str, u32)] = &[("M16", 5), ("Mpod", 2), ("M208", 1), ("M64a", 1), ("M5", 1), ("M6", 1)];
+const MAP_WORLDS: &[(&str, u32)] = &[("M16", 5), ("Mpod", 2), ("M208", 1), ("M64a", 1), ("M5", 1), ("M6", 1), ("Mz", 1)];
 
 /// State-building operations that every map profile mixes in.
 const MAP_BUILD: &[(Kd, u32)] = &[(Kd::Insert, 30), (Kd::Remove, 14), (Kd::Extend, 3), (Kd::Clear, 1), (Kd::Reserve, 1), (Kd::ShrinkTo, 1), (Kd::ShrinkToFit, 1), (Kd::WithCapacity, 1), (Kd::Get, 2), (Kd::Entry, 2), (Kd::Retain, 1)];
@@ -142,7 +142,7 @@ pub const SET_CORE: &[(Kd, u32)] = &[
     (Kd::WithCapacity, 1),
     (Kd::New, 1),
 ];
-const SET_WORLDS: &[(&str, u32)] = &[("S8", 3), ("S24", 3), ("S1", 2), ("S2", 2)];
+const SET_WORLDS: &[(&str, u32)] = &[("S8", 6), ("S24", 6), ("S1", 4), ("S2", 4), ("Sz", 1)];
 
 /// The HashSet variant of a property's profile (None: the property has no set part).
 fn set_spec(prop: &str, thorough: bool, rng: &mut Rng, universe: u32, n_ops: usize) -> Option<RunSpec> {
@@ -254,7 +254,7 @@ fn spec_for_inner(prop: &str, thorough: bool, rng: &mut Rng) -> RunSpec {
         "C02" => {
             // safety monitors under cancellation: every iterator/drain/extract_if/entry may be dropped or
             // forgotten part-way; lying size hints; all layouts
-            let world = pick_world(rng, &[("M16", 3), ("Mpod", 2), ("M208", 2), ("M64a", 3), ("M5", 1), ("M6", 1)]);
+            let world = pick_world(rng, &[("M16", 3), ("Mpod", 2), ("M208", 2), ("M64a", 3), ("M5", 1), ("M6", 1), ("Mz", 1)]);
             let cfg = base_cfg(rng, 3);
             let mut g = gen(Family::Map, universe, with(MAP_CORE, &[(Kd::Iter, 8), (Kd::IntoIter, 8), (Kd::Drain, 8), (Kd::ExtractIf, 8), (Kd::Entry, 6), (Kd::Extend, 4), (Kd::CloneFrom, 2), (Kd::GetMany, 2), (Kd::FillNoAlloc, 1)], rng));
             g.allow_forget = true;
@@ -415,7 +415,7 @@ fn spec_for_inner(prop: &str, thorough: bool, rng: &mut Rng) -> RunSpec {
             // any map/set reached by a history, serialised and read back (cleanly and through a faulty
             // reader), and streams with repeated keys, lying lengths and an error at element k
             let set = rng.below(3) == 0;
-            let world = if set { pick_world(rng, &[("S8", 2), ("S24", 2), ("S1", 1)]) } else { pick_world(rng, &[("M16", 4), ("Mpod", 2), ("M208", 1)]) };
+            let world = if set { pick_world(rng, &[("S8", 3), ("S24", 3), ("S1", 2), ("Sz", 1)]) } else { pick_world(rng, &[("M16", 6), ("Mpod", 3), ("M208", 2), ("Mz", 1), ("Mzz", 1)]) };
             let cfg = base_cfg(rng, 3);
             let base = if set { SET_CORE } else { MAP_BUILD };
             let mut g = gen(if set { Family::Set } else { Family::Map }, universe.min(200), with(base, &[(Kd::SerdeRoundTrip, 14), (Kd::SerdeStream, 24)], rng));
@@ -430,7 +430,7 @@ fn spec_for_inner(prop: &str, thorough: bool, rng: &mut Rng) -> RunSpec {
             RunSpec { world, cfg, gen: g, n_ops }
         }
         "C15" => {
-            let world = pick_world(rng, &[("M16", 5), ("Mpod", 2), ("M208", 1), ("M64a", 1)]);
+            let world = pick_world(rng, &[("M16", 5), ("Mpod", 2), ("M208", 1), ("M64a", 1), ("Mz", 2)]);
             let mut cfg = base_cfg(rng, 3);
             if rng.below(3) == 0 {
                 // an equality that matches several entries: only "never alias" is then checked
